@@ -170,9 +170,10 @@ def concrete_list(l):
 def list_lemmas(terms):
     """ground instances of proved list facts for the VL terms occurring in `terms`
     (length >= 0; app(l, nil) == l; length(app) ; nth of snoc) -- instantiated, never quantified (DESIGN 2.10)."""
-    seen, out, stack = set(), [], [(t, 0) for t in terms]
+    import collections
+    seen, out, stack = set(), [], collections.deque((t, 0) for t in terms)
     while stack:
-        e, depth = stack.pop()
+        e, depth = stack.popleft()      # breadth first: every term of the query itself is visited at depth 0
         if e.get_id() in seen:
             continue
         seen.add(e.get_id())
@@ -222,6 +223,8 @@ def list_lemmas(terms):
                 out.append(z3.Implies(z3.And(e.arg(1) >= 0, e.arg(1) <= length(e.arg(0))), length(e) == e.arg(1)))
                 out.append(z3.Implies(e.arg(1) >= length(e.arg(0)), e == e.arg(0)))
                 out.append(length(e.arg(0)) >= 0)
+            if n in UNFOLD and depth < 1:
+                out.append(z3.simplify(e == UNFOLD[n](*[e.arg(i) for i in range(e.num_args())])))
             for hook in LEMMA_HOOKS:
                 out += hook(e, n)
             stack.extend((c, depth) for c in e.children())
@@ -233,6 +236,7 @@ def list_lemmas(terms):
     return out
 
 
+UNFOLD = {}           # rec-function name -> python function building its body: definitional instances made syntactically present
 LEMMA_HOOKS = []      # functions (term, head name) -> ground instances of lemmas proved by induction elsewhere
 
 
@@ -279,3 +283,45 @@ def int_of(v):
 def num(v):
     """the integer a number denotes when it is integral (floor otherwise)"""
     return z3.If(V.is_Int(v), V.i(v), z3.If(V.is_Bool(v), z3.If(V.b(v), 1, 0), V.fl(v)))
+
+
+# --------------------------------------------------------------------------- abstraction of recursive definitions
+_TWINS = {}
+
+
+def _twin(decl):
+    key = decl.name()
+    if key not in _TWINS:
+        doms = [decl.domain(i) for i in range(decl.arity())]
+        g = z3.Function(key + '!u', *doms, decl.range())
+        body = g(*[z3.Var(decl.arity() - 1 - i, doms[i]) for i in range(decl.arity())]) if False else None
+        _TWINS[key] = (decl, g)
+    return _TWINS[key]
+
+
+def abstract_recs(exprs):
+    """replace every recursive function by an uninterpreted twin: the result is implied-weaker (fewer facts), so
+    `unsat` of the abstracted query implies `unsat` of the original one, and `sat`/`unknown` decide nothing."""
+    decls = {}
+    seen, stack = set(), list(exprs)
+    while stack:
+        e = stack.pop()
+        if e.get_id() in seen:
+            continue
+        seen.add(e.get_id())
+        if z3.is_app(e):
+            d = e.decl()
+            if d.kind() == z3.Z3_OP_RECURSIVE:
+                decls[d.name()] = d
+            stack.extend(e.children())
+        elif z3.is_quantifier(e):
+            stack.append(e.body())
+    if not decls:
+        return list(exprs)
+    subs = []
+    for name, d in decls.items():
+        _, g = _twin(d)
+        n = d.arity()
+        # de Bruijn: Var(0) is the LAST argument in substitute_funs templates
+        subs.append((d, g(*[z3.Var(i, d.domain(i)) for i in range(n)])))
+    return [z3.substitute_funs(e, *subs) for e in exprs]
